@@ -4,6 +4,7 @@
 mod codec;
 mod dp;
 mod ring;
+mod rx;
 mod single;
 mod util;
 mod vbus;
@@ -22,6 +23,7 @@ fn main() {
         "codec" => codec::run(&args),
         "ring" => ring::run(&args),
         "dp" => dp::run(&args),
+        "rx" => rx::run(&args),
         "single" => single::run(&args),
         _ => {
             eprintln!("usage: pbv <codec|...> --out FILE --seed N --tier quick|thorough");
